@@ -10,20 +10,20 @@ from .c01 import popped_entry_var
 
 LEVEL = "other"
 EXPLANATION = (
-    "Static analysis of socket.py, heartbeat.py and both api.py: R1 the retry budget strictly decreases and the re-queue is "
-    "control-dependent on budget > 0 (branch dominance + constant folding); R2 an expiry comparison in strict normal form "
-    "`now < entry.expiry`, with `now` read from the loop clock after the entry was popped, dominates every write, the expiry is "
-    "fixed at acceptance and copied unchanged; R3 the retried entry goes to the head; R4 folded policy constants; R5 every "
-    "request send site uses the 1 s policy; R6 for every private command sender the accumulating constructs (derived from the "
-    "parameter types: members TOGGLE/CHANGE and *IncreaseDecrease classes that can reach the sender) force the no-retry policy, "
-    "decided by three-valued evaluation of the selecting condition plus a value-set analysis of the call sites. Necessary "
-    "conditions only; fault timing is not decided."
+    'Static analysis of socket.py, heartbeat.py and both api.py: R1 the retry budget strictly decreases and the re-queue is control-dependent on budget > 0 '
+    '(branch dominance + constant folding); R2 an expiry comparison in strict normal form `now < entry.expiry`, with `now` read from the loop clock after '
+    'the entry was popped, dominates every write, the expiry is fixed at acceptance and copied unchanged; R3 the retried entry goes to the head; R4 folded '
+    'policy constants; R5 every request send site uses the 1 s policy; R6 for every private command sender the accumulating constructs (derived from the '
+    'parameter types: members TOGGLE/CHANGE and *IncreaseDecrease classes that can reach the sender) force the no-retry policy, decided by three-valued '
+    'evaluation of the selecting condition plus a value-set analysis of the call sites. Necessary conditions only; fault timing is not decided. R7 the '
+    'pending queue is mutated only by its owner functions and only at the documented end (C01.R2 re-evaluated: a wipe of the queue in the disconnect path '
+    'loses commands that are still within their lifetime).'
 )
 ASSUMPTIONS = [
     "the event-loop clock is monotonic",
     "vendor protocol: toggle / +-1 step / control-method change accumulate when repeated (AirTouch 4 v1.6 p.4,7; AirTouch 5 v1.2 p.5,8)",
 ]
-FLOORS = {"C02.R1": 3, "C02.R2": 4, "C02.R3": 1, "C02.R4": 5, "C02.R5": 20, "C02.R6": 8}
+FLOORS = {"C02.R1": 3, "C02.R2": 4, "C02.R3": 1, "C02.R4": 5, "C02.R5": 20, "C02.R6": 8, "C02.R7": 1}
 
 SENDERS = [
     (AT4_API, "At4Zone._send_group_control_message"),
